@@ -94,6 +94,7 @@ class Kernel:
         self.lib_scope = None
         self.site_counts = None
         self.abort_at = None
+        self.abort_skip = frozenset()
         self.now = 0.0  # simulated seconds (used only for waits with timeouts / sleep)
         self.counters = {"lib_threads_started": 0, "deadlocks": 0, "timeouts_fired_early": 0, "timeouts_by_idle": 0,
                          "blocks": 0, "lock_contention": 0, "unsimulated_concurrency": 0}
@@ -136,7 +137,8 @@ class Kernel:
         self.lib_scope = frozenset(lib_scope) if lib_scope else None
         self.site_counts = None
         self.abort_at = None  # (step, exception class): fault injected into whichever task executes that step
-        
+        self.abort_skip = frozenset()
+
     def current(self):
         return self.by_ident.get(_thread.get_ident())
 
@@ -179,9 +181,13 @@ class Kernel:
         self.n += 1
         task.steps += 1
         if self.abort_at is not None and self.n >= self.abort_at[0]:
-            exc = self.abort_at[1]
-            self.abort_at = None
-            raise exc()
+            # not on a `with` header (the line event that precedes __exit__ lies outside the protected
+            # range: CPython itself cannot release the lock there, bpo-29988) nor inside clean-up code
+            # (finally / except bodies): no program can be asked to survive a fault in its own clean-up
+            if (frame.f_code.co_filename, frame.f_lineno) not in self.abort_skip:
+                exc = self.abort_at[1]
+                self.abort_at = None
+                raise exc()
         if self.site_counts is not None:
             k = (frame.f_code.co_filename, frame.f_lineno)
             self.site_counts[k] = self.site_counts.get(k, 0) + 1
